@@ -5,5 +5,6 @@ CONSTANTS
  CheckMode = "groupkey"
  MCCfgs <- Cfg3v2f
  MaxForge = 1
+ Combine = FALSE
 INVARIANTS I4_OnlyFaultsFail
 CHECK_DEADLOCK FALSE
